@@ -7,7 +7,8 @@ from simkit import values as V
 
 CATEGORIES = ['OpA', 'OpAB', 'OpA_b', 'OpB']
 KEY_TEXTS = ['k', 'input: a args=[1], kwargs=[]', 'output: o #1.output', 'output: o #10.result', 'q"uote', "sq'uote", 'back\\slash', u'unicöde ☃ key',
-             'a/b', 'a_b', 'a.b', 'a#1', '{"json": [1, 2]}', '[', '}', ' ', 'x' * 300, 'tab\there', 'new\nline', '%s %d {0}', 'null', 'true', '0']
+             'a/b', 'a_b', 'a.b', 'a#1', '{"json": [1, 2]}', '[', '}', ' ', 'x' * 300, 'tab\there', 'new\nline', '%s %d {0}', 'null', 'true', '0',
+             'r\udce9sum\udce9.txt']      # (the last one: a file name decoded with surrogate escapes)
 META_KEYS = ['m', 'n', 'flag', 'name', 'tags', 'nested', 'size']
 JSON_ATOMS = [None, True, False, 0, 1, 2, -1, 1.5, 2.0, '', 'a', 'ab', 'abc', 'b', 'A', '1', 'a*', '[a]',
               u'Z\u00fcrich', 'the "old" town', 'C:\\temp\\x', 'two\nlines']      # text that JSON stores escaped
